@@ -1,6 +1,7 @@
 package runtime
 
 import (
+	"strconv"
 	"strings"
 	"sync"
 
@@ -12,22 +13,27 @@ import (
 // C20: lines reach each program exactly once, in order, across a reload.
 //
 // The real runtime (New: dispatcher goroutine, CompileAndRun, VM goroutines)
-// runs one program; lines are sent on the real lines channel.  One reload is
-// made while lines arrive: the harness may send the next line at any point at
-// which the reloading goroutine releases a lock of the runtime or of the
-// store (handleMu, programErrorMu, insertMu, searchMu; verifYieldAny: called by the engine right after each such
-// Unlock/RUnlock of the main goroutine, natively by a source rewrite of the
-// same call sites), or after the reload.  The other goroutines (dispatcher,
-// old and new VM) run until none can go on after every line (one schedule).
-// Every line must have been counted by exactly one version, old before new,
-// and a declaration kept by the reload must show every line's effect in the
-// store.
+// runs one program; lines "1", "2", ... are sent on the real lines channel.
+// One reload is made while lines arrive: the harness may send the next line at
+// any point at which the reloading goroutine releases a lock of the runtime or
+// of the store (handleMu, programErrorMu, insertMu, searchMu; verifYieldAny:
+// called by the engine right after each such Unlock/RUnlock of the main
+// goroutine, natively by a source rewrite of the same call sites), or after
+// the reload.  A VM that has received a line may be delayed before it
+// processes it (verifPreemptPoint at the entry of ProcessLogLine: the VM steps
+// aside until the harness next waits for everything to settle, or until the
+// reloading goroutine itself has to wait).  Otherwise the dispatcher and the
+// VMs run until none can go on after every line.
+// Every line must have been processed by exactly one version, old before new;
+// a declaration kept by the reload must show every line's effect in the
+// store, and a gauge must end with the last line's value.
 
 var c20 struct {
-	armed bool
-	sent  bool
-	point int
-	send  func()
+	armed  bool
+	sent   bool
+	point  int
+	delays int
+	send   func()
 }
 
 func verifYieldAny() {
@@ -41,17 +47,36 @@ func verifYieldAny() {
 	}
 }
 
-// c20Count reads a counter metric's total: the scalar datum or the "x" label set.
-func c20Count(m *metrics.Metric) int64 {
+func verifPreemptPoint() {
+	if c20.delays > 0 && nondetBool("vm-delayed-before-this-line") {
+		c20.delays--
+		vDelay()
+	}
+}
+
+// c20Settle waits until dispatcher and VMs cannot go on; a delayed VM is let
+// go first (natively: the delay ends 20 ms into this 60 ms wait).
+func c20Settle() {
+	vRelease()
+	vQuiesce()
+	vQuiesce()
+	vQuiesce()
+}
+
+// c20Val reads the program's metric: the scalar datum or the "x" label set
+// (a counter's count of lines, a gauge's last line number).
+func c20Val(m *metrics.Metric) int64 {
 	if m == nil {
 		return 0
 	}
 	var lv *metrics.LabelValue
+	m.RLock()
 	if len(m.Keys) == 0 {
 		lv = m.FindLabelValueOrNil(nil)
 	} else {
 		lv = m.FindLabelValueOrNil([]string{"x"})
 	}
+	m.RUnlock()
 	if lv == nil {
 		return 0
 	}
@@ -59,6 +84,7 @@ func c20Count(m *metrics.Metric) int64 {
 }
 
 func HarnessC20Reload() {
+	c20.armed, c20.sent, c20.point, c20.delays, c20.send = false, false, 0, 0, nil
 	vClockFreeze()
 	const prog = "p.mtail"
 	store := metrics.NewStore()
@@ -69,11 +95,12 @@ func HarnessC20Reload() {
 		vAssert(false, "L.setup")
 		return
 	}
-	olds := []string{lvV1, lvKeys}
-	news := [][]string{{lvV1c, lvV2}, {lvKeyC, lvV2}}
-	oi := nondetRange("old-version", 0, 1)
+	olds := []string{lvV1, lvKeys, lvG1}
+	news := [][]string{{lvV1c, lvV2}, {lvKeyC, lvV2}, {lvG1c, lvV2}}
+	oi := nondetRange("old-version", 0, 2)
 	oldText := olds[oi]
 	newText := news[oi][nondetRange("new-version", 0, 1)]
+	gauge := oi == 2
 	if r.CompileAndRun(prog, strings.NewReader(oldText)) != nil {
 		vAssert(false, "L.setup")
 		return
@@ -84,22 +111,22 @@ func HarnessC20Reload() {
 		return
 	}
 	oldM := oldH.vm.Metrics[0]
+	c20.delays = vParam("delays", 1)
 	nsent := int64(0)
 	send := func() {
 		nsent++
-		lines <- &logline.LogLine{Filename: "log", Line: "l"}
-		vQuiesce()
+		lines <- &logline.LogLine{Filename: "log", Line: strconv.FormatInt(nsent, 10)}
+		c20Settle()
 	}
-	for i := nondetRange("lines-before", 0, 1); i > 0; i-- {
+	for i := nondetRange("lines-before", 0, vParam("before", 1)); i > 0; i-- {
 		send()
 	}
-	vAssert(c20Count(oldM) == nsent, "C20.line-processed-once")
 
 	// the reload, with a line arriving at a lock-release point or after it
 	c20.armed, c20.sent, c20.point, c20.send = true, false, 0, send
 	err = r.CompileAndRun(prog, strings.NewReader(newText))
 	c20.armed = false
-	vQuiesce()
+	c20Settle()
 	vAssert(err == nil, "C14.valid-source-loads")
 	newH := r.handles[prog]
 	if newH == nil || newH == oldH {
@@ -112,28 +139,31 @@ func HarnessC20Reload() {
 		c20.sent = true
 		send()
 	}
-	afterOld, afterNew := c20Count(oldM), c20Count(newM)
 	send() // one more line: the new version's
+	c20Settle()
 	kept := newText != lvV2
-	if kept {
-		// same declaration: the old label sets (and their data) carry over,
-		// so both versions count into the same total
+	switch {
+	case kept:
+		// same declaration: the old label sets (and their data) carry over, so
+		// both versions write the same datum: a counter counts every line, a
+		// gauge ends with the last line's number
 		exp := store.FindMetricOrNil("va", prog)
 		vAssert(exp == newM, "C14.valid-source-loads")
-		vAssert(c20Count(exp) == nsent, "C20.every-line-shows-in-the-kept-metric-exactly-once")
-	} else {
-		// different metrics: each line moved exactly one of them, and no line
-		// went to the old version after one went to the new
-		vAssert(c20Count(oldM)+c20Count(newM) == nsent, "C20.line-processed-by-exactly-one-version")
-		vAssert(c20Count(oldM) == afterOld, "C20.old-version-gets-no-line-after-the-new-one-runs")
-		vAssert(afterOld+afterNew == nsent-1, "C20.line-processed-by-exactly-one-version")
+		vAssert(c20Val(exp) == nsent, "C20.every-line-shows-in-the-kept-metric-once-and-in-order")
+	case gauge:
+		// the old version saw lines 1..k in order, the new one the rest
+		vAssert(c20Val(oldM)+c20Val(newM) == nsent, "C20.line-processed-by-exactly-one-version-old-before-new")
+	default:
+		vAssert(c20Val(oldM)+c20Val(newM) == nsent, "C20.line-processed-by-exactly-one-version-old-before-new")
 	}
+	vAssert(c20Val(newM) >= 1 || kept, "C20.line-after-the-reload-goes-to-the-new-version")
 	vAssert(lvClosed(oldH), "C14.replaced-version-is-stopped")
 	vObserve("during", during)
 	vObserve("points", c20.point)
+	vObserve("delays-left", c20.delays)
 	// shutdown: closing the input ends the dispatcher and every VM
 	close(lines)
-	vQuiesce()
+	c20Settle()
 	wg.Wait()
 	vAssert(vBlockedGoroutines() == 0, "C20.everything-stops-when-the-input-ends")
 }
